@@ -31,7 +31,7 @@ def main():
     scratch, cfg = os.path.realpath(sys.argv[1]), json.loads(sys.argv[2])
     import lian.preparation as prep
     from vlib.harness import h_c18 as h
-    base = os.path.join(scratch, "base")
+    base = scratch + cfg.get("base", "/base")
 
     def w(p, c):
         os.makedirs(os.path.dirname(p), exist_ok=True)
@@ -49,17 +49,20 @@ def main():
     w(f"{scratch}/outside/o.py", "O")
     os.chdir(base)
     cfg = dict(cfg)
-    if cfg["workspace"].startswith("/base"):
+    if cfg["workspace"].startswith("/"):
         cfg["workspace"] = scratch + cfg["workspace"]
     options = h.make_options(cfg)
     h.set_workspace_dir(options)
-    ws_real = os.path.realpath(options.workspace)
+    ws_real = os.path.realpath(h.expected_workspace(cfg["workspace"]))
     if not h.under(ws_real, scratch):
         print("C18RESULT " + json.dumps({"why": None, "note": "workspace escapes the scratch directory; not replayed"}))
         return
     if cfg["stale"]:
         w(os.path.join(ws_real, "src/old.py"), "OLD")
         w(os.path.join(ws_real, "old.txt"), "OLD")
+        os.symlink(f"{scratch}/outside", os.path.join(ws_real, "old_link"))
+        os.makedirs(os.path.join(ws_real, "src/deep"), exist_ok=True)
+        os.symlink(f"{base}/other", os.path.join(ws_real, "src/deep/lnk"))
     before = tree(scratch)
     why = None
     signal.alarm(20)
